@@ -9,5 +9,6 @@ CONSTANTS MaxLen = 2
   Variant = "combine-via-call"
   CopyVarContext = TRUE
   ExtendByCompose = TRUE
+  PathKeys = FALSE
 INVARIANT CombineTuple
 CHECK_DEADLOCK FALSE
